@@ -201,6 +201,45 @@ pub fn mutate_bytes(rng: &mut Rng, seed: &[u8], other: &[u8]) -> Vec<u8> {
   v
 }
 
+/// Multi-byte characters of every UTF-8 width (2, 3, 4 bytes).
+pub const WIDE_CHARS: &[&str] = &["é", "€", "𝄞"];
+
+/// "Char-boundary ladders": `prefix` + 0..w ASCII filler bytes + one w-byte character repeated up to `bytes` bytes.
+/// Over the returned family EVERY byte offset between `prefix.len() + w` and `bytes` lies strictly inside a multi-byte
+/// character in at least one member, so code that cuts the text at any fixed or computed byte offset (abbreviating an
+/// input for an error message, peeking at a header, windowed scanning) meets a non-boundary whatever the offset is.
+pub fn wide_ladders(prefix: &str, filler: char, bytes: usize) -> Vec<String> {
+  let mut out = Vec::new();
+  for wide in WIDE_CHARS {
+    let w = wide.len();
+    for shift in 0..w {
+      let mut s = String::with_capacity(bytes + 8);
+      s.push_str(prefix);
+      for _ in 0..shift {
+        s.push(filler);
+      }
+      while s.len() + w <= bytes.min(MAX_LEN) {
+        s.push_str(wide);
+      }
+      out.push(s);
+    }
+  }
+  out
+}
+
+/// A random text of `bytes` bytes mixing ASCII from `alphabet` with multi-byte characters (density 1/`sparse`).
+pub fn wide_mix(rng: &mut Rng, alphabet: &[u8], bytes: usize, sparse: u64) -> String {
+  let mut s = String::with_capacity(bytes + 4);
+  while s.len() < bytes.min(MAX_LEN - 4) {
+    if rng.chance(1, sparse.max(1)) {
+      s.push_str(pick_s(rng, WIDE_CHARS));
+    } else {
+      s.push(*rng.pick(alphabet) as char);
+    }
+  }
+  s
+}
+
 pub fn cap_str(mut s: String) -> String {
   if s.len() > MAX_LEN {
     let mut i = MAX_LEN;
